@@ -40,20 +40,22 @@ Proof.
   intros d fs; induction fs as [|[[f cert] key] fs IH]; intros st xs st' H; cbn [resolve_http] in H.
   - inversion H; subst. repeat split; constructor.
   - assert (Fin : forall (fr : front) (cv : Z) st1,
-             match resolve_http d fs st1 with
-             | Ok (xs0, st'') => Ok ((fr, cv) :: xs0, st'')
-             | Err e => Err e
-             end = Ok (xs, st') ->
+             (if mem_key (fkey fr) (ls_routes st1) then Err EDuplicateFrontend
+              else match resolve_http d fs (add_route st1 (fkey fr)) with
+                   | Ok (xs0, st'') => Ok ((fr, cv) :: xs0, st'')
+                   | Err e => Err e
+                   end) = Ok (xs, st') ->
              f_addr fr = f_addr f -> f_cluster fr = f_cluster f ->
              ls_clusters st1 = ls_clusters st ->
              map (fun x => f_addr (fst x)) xs = map (fun x => f_addr (fst (fst x))) ((f, cert, key) :: fs)
              /\ Forall2 (fun x y => f_cluster (fst x) = f_cluster (fst (fst y))) xs ((f, cert, key) :: fs)
              /\ ls_clusters st' = ls_clusters st).
-    { intros fr cv st1 H1 Ha Hcl Hc. destruct (resolve_http d fs st1) as [[xs0 st'']|e] eqn:E; [|discriminate].
+    { intros fr cv st1 H1 Ha Hcl Hc. destruct (mem_key (fkey fr) (ls_routes st1)); [discriminate|].
+      destruct (resolve_http d fs (add_route st1 (fkey fr))) as [[xs0 st'']|e] eqn:E; [|discriminate].
       inversion H1; subst. destruct (IH _ _ _ E) as (I1 & I2 & I3). cbn [map fst]. repeat split.
       - now rewrite I1, Ha.
       - constructor; [exact Hcl|exact I2].
-      - congruence. }
+      - rewrite I3. exact Hc. }
     destruct (known_proto st (f_addr f)) as [p|].
     + destruct ((p =? 2) || (p =? 3)); [discriminate|]. destruct (p =? 0).
       * destruct (negb (cert =? -1)); [discriminate|]. exact (Fin _ _ st H eq_refl eq_refl eq_refl).
@@ -63,21 +65,17 @@ Proof.
       exact (Fin _ _ (push_listener st l) H eq_refl eq_refl (push_listener_clusters st l)).
 Qed.
 
-Lemma tcp_fronts_conv_addrs : forall ex cid fs has ts h, tcp_fronts_conv ex has cid fs = Ok (ts, h) ->
+Lemma tcp_fronts_conv_addrs : forall ex cid fs has seen ts h, tcp_fronts_conv ex has cid seen fs = Ok (ts, h) ->
   map t_addr ts = map fd_addr fs /\ Forall (fun t => t_cluster t = cid) ts.
 Proof.
-  intros ex cid fs; induction fs as [|f fs IH]; intros has ts h H; cbn [tcp_fronts_conv] in H.
+  intros ex cid fs; induction fs as [|f fs IH]; intros has seen ts h H; cbn [tcp_fronts_conv] in H.
   - inversion H; subst. split; [reflexivity|constructor].
-  - destruct has as [hb|].
-    + destruct (Bool.eqb hb (memb (fd_addr f) ex)); [|discriminate].
-      destruct (is_some (fd_host f) || is_some (fd_path f) || negb (fd_cert f =? -1)); [discriminate|].
-      destruct (tcp_fronts_conv ex (Some hb) cid fs) as [[ts' h']|e] eqn:E; [|discriminate].
-      inversion H; subst. destruct (IH _ _ _ E) as [I1 I2]. cbn [map t_addr t_cluster].
-      split; [now rewrite I1|constructor; [reflexivity|exact I2]].
-    + destruct (is_some (fd_host f) || is_some (fd_path f) || negb (fd_cert f =? -1)); [discriminate|].
-      destruct (tcp_fronts_conv ex (Some (memb (fd_addr f) ex)) cid fs) as [[ts' h']|e] eqn:E; [|discriminate].
-      inversion H; subst. destruct (IH _ _ _ E) as [I1 I2]. cbn [map t_addr t_cluster].
-      split; [now rewrite I1|constructor; [reflexivity|exact I2]].
+  - destruct (negb _); [discriminate|].
+    destruct (is_some (fd_host f) || is_some (fd_path f) || negb (fd_cert f =? -1)); [discriminate|].
+    destruct (mem_key _ seen); [discriminate|].
+    destruct (tcp_fronts_conv ex _ cid _ fs) as [[ts' h']|e] eqn:E; [|discriminate].
+    inversion H; subst. destruct (IH _ _ _ _ E) as [I1 I2]. cbn [map t_addr t_cluster].
+    split; [now rewrite I1|constructor; [reflexivity|exact I2]].
 Qed.
 
 Lemma resolve_tcp_addrs : forall d ts st xs st', resolve_tcp d ts st = Ok (xs, st') ->
@@ -110,6 +108,7 @@ Lemma populate_cluster_exact : forall d c st st', populate_cluster d c st = Ok s
 Proof.
   intros d c st st' H. unfold populate_cluster in H.
   destruct (negb (hc_valid (build_clu c (-1)))) eqn:Ehc; [discriminate|]. apply negb_false_iff in Ehc.
+  destruct (negb (nodup_keys _)); [discriminate|].
   destruct (cd_proto c =? 1).
   - destruct (tcp_fronts_conv _ _ _ _) as [[ts has]|e] eqn:E1; [|discriminate].
     destruct (resolve_tcp d ts st) as [[ts' st1]|e] eqn:E2; [|discriminate].
@@ -148,12 +147,12 @@ Proof.
   - destruct (is_some (known_proto st (ld_addr l))); [discriminate|]. destruct (ld_proto l =? -1); [discriminate|].
     destruct (is_some (ld_public l) && (ld_expect l =? 1)); [discriminate|].
     destruct (build_listener d l) as [b|e]; [|discriminate].
-    apply IH in H. rewrite H. destruct (ld_expect l =? 1); cbn [ls_clusters]; apply push_listener_clusters.
+    apply IH in H. rewrite H. destruct (ld_expect l =? 1); cbn [add_expect ls_clusters]; apply push_listener_clusters.
 Qed.
 
 Lemma load_in_inv : forall d order cf, load_in d order = Ok cf ->
   parses d = true /\ nodup_bytes (map ld_addr (d_listeners d)) = true
-  /\ exists st st', populate_listeners d (d_listeners d) (mk_lstate [] [] [] [] [] [] []) = Ok st
+  /\ exists st st', populate_listeners d (d_listeners d) (mk_lstate [] [] [] [] [] [] [] []) = Ok st
        /\ populate_clusters d order st = Ok st'
        /\ (existsb has_h2 (ls_https st') && (buffer_of d <? h2_min_buffer_size)) = false
        /\ d_autosave d = false
